@@ -1,4 +1,5 @@
 import Memterm.Props.C18
+import Memterm.Spec.C15
 
 /-
   C15 — RIS returns the terminal to its power-on state.
@@ -7,24 +8,6 @@ namespace Memterm
 namespace C15
 
 open Gen
-
-/-- the power-on state of a `columns x lines` screen, with a given saved-cursor stack -/
-def powerOn (columns lines : Nat) (sps : List Savepoint) : Screen :=
-  let mode : Nat → Bool := fun m => DEFAULT_MODE.contains m
-  let dattr : Attr :=
-    { fg := strDefault, bg := strDefault, bold := false, italics := false, underscore := false,
-      strikethrough := false, reverse := mode DECSCNM, blink := false }
-  { columns := columns, lines := lines
-    cursor := { x := 0, y := 0, attr := dattr, hidden := false }
-    margins := none
-    mode := mode
-    tabstops := C18.defaultStop columns
-    dirty := fun d => d < lines
-    title := [], icon := []
-    g0 := .lat1, g1 := .vt100, g1Active := false
-    savepoints := sps
-    savedColumns := none
-    cell := fun _ _ => { data := strSpace, attr := dattr } }
 
 /-- RIS: everything but the saved-cursor stack is re-initialised -/
 theorem reset_eq (s : Screen) (hl : 1 ≤ s.lines) : reset s = powerOn s.columns s.lines s.savepoints := by
@@ -60,15 +43,6 @@ theorem reset_forgets (s t : Screen) (hs : 1 ≤ s.lines) (ht : 1 ≤ t.lines)
 /-- the documented defaults -/
 theorem default_modes : DEFAULT_MODE = [DECAWM, DECTCEM] := by decide
 
-/-- executable predicate, evaluated on the implementation's `reset` transitions -/
-def propC15 (cands : List Nat) (pre : Screen) (c : Call) (post : Screen) : Bool :=
-  match c with
-  | .reset =>
-    let e := powerOn pre.columns pre.lines pre.savepoints
-    decide (post.cursor = e.cursor) && sameSettingsB cands e post && sameCellsB e post &&
-    (List.range (pre.lines + 3)).all (fun r => post.dirty r == decide (r < pre.lines))
-  | _ => true
-
 theorem C15_holds (env : Env) (cands : List Nat) (s : Screen) (c : Call) (h : Inv s) :
     propC15 cands s c (step env s c) = true := by
   cases c <;> try rfl
@@ -89,3 +63,4 @@ example :
 
 end C15
 end Memterm
+
